@@ -12,13 +12,3 @@ Lemma errno_result_is_inner {A} (inner : Z -> A * Z) (e : Z) :
   fst (with_saved_errno inner e) = fst (inner e).
 Proof. unfold with_saved_errno. now destruct (inner e). Qed.
 
-(* the run-time checker accepts what the model of the current pair produces *)
-Lemma xmm_checker_accepts_model (before clobber : list (Z * Z)) :
-  List.length before = 16%nat ->
-  ok_xmm before (xlist (arch_roundtrip_now (xof before) (fun _ => 0) (xof clobber))) = true.
-Proof.
-  intro H.
-  do 16 (destruct before as [|[? ?] before]; [discriminate|]).
-  destruct before; [|discriminate].
-  cbv -[zeq]. unfold zeq. rewrite !Z.eqb_refl. reflexivity.
-Qed.
